@@ -63,4 +63,8 @@ Section Answers.
     with_msg st NotFound (fun m vs => mget fuel m vs q).
   Definition inst_searchid (st : inst VarsT Levels) (fuel : nat) (q : key) :=
     with_msg st (None, None, None) (fun m vs => msearchid fuel m vs q).
+  Definition inst_search (st : inst VarsT Levels) (fuel : nat) (q : key) :=
+    with_msg st (None, None, None) (fun m vs => msearch fuel m vs q).
+  Definition inst_rangeget (st : inst VarsT Levels) (fuel : nat) (q : key) : res found :=
+    with_msg st NotFound (fun m vs => mrangeget fuel m vs q).
 End Answers.
